@@ -14,6 +14,7 @@ SPEC = {
         "AM.CrashFS.rename_before_fsync_torn", "AM.CrashFS.no_fsync_torn", "AM.CrashFS.in_place_torn",
         "AM.CrashFS.never_refuses_own_file_partial", "AM.CrashFS.never_refuses_first_snapshot",
         "AM.CrashFS.oversize_record_refused", "AM.CrashFS.restart_keeps_muting_and_dedup",
+        "AM.CrashFS.snapshot_loads_one_state", "AM.CrashFS.streaming_snapshot_mixed",
     ],
     "engines": [
         {"name": "snapshot", "pkg": "./snapshot", "search_cases": 200, "timeout_quick": 300, "timeout_thorough": 900},
@@ -23,6 +24,9 @@ SPEC = {
         # data directory of the REAL application (app.New): it must refuse to start and leave the file alone (only the torn cases run here)
         {"name": "reload", "pkg": "./reload", "search_cases": 6, "timeout_quick": 400, "timeout_thorough": 900, "timeout_search": 400,
          "env": {"VERIF_RELOAD_ONLY": "torn"}, "only": ["decode_truncated"]},
+        # the CONTENT of a snapshot written while the store is being edited (real goroutines, real time): op snaprace only
+        {"name": "mutesrace", "pkg": "./mutesrace", "search_cases": 60, "timeout_quick": 300, "env": {"VERIF_MUTESRACE_OPS": "snaprace"},
+         "only": ["snapshot_loads_one_state"]},
     ],
     "rule": "real nflog.Log and silence.Silences: (a) generated stores (0..200 records quick, ..5000 thorough; shapes mix/min/multi/big, "
             "contents through Merge and through the write APIs Log/Set) -> Snapshot or real Maintenance -> load through SnapshotReader/SnapshotFile "
@@ -41,6 +45,7 @@ SPEC = {
             "snapshots a smaller state (0-1 records) in-process over each materialised crash state, the target is read back (must be exactly the new "
             "snapshot, compared with the model's runHist) and loaded by the real loader. (f) engine reload, torn cases only: a 3-record notification-log snapshot cut 1..20 bytes before its end in the data directory of the REAL "
             "application (app.New): it refuses to start and the file is untouched. "
+            "(g) mutesrace/snaprace (real goroutines, real time): Silences.Snapshot over 300/1500 active silences racing an incompatible edit of one of them (expire + replacement in one critical section), the edit started when the snapshot's writer has its first bytes (the writer stalls <= 30 ms) or after 1/8..3/8 of the measured duration of a snapshot; the snapshot is loaded into a fresh Silences and must be the store before or after the edit (snapshot_loads_one_state, class snapshot-mixed-state). "
             "A case is non-trivial when it hits a tagged branch; distinct = distinct hash of its lines",
     "assumptions": [
         "protobuf field codec round-trips (decodeMsg (encodeMsg m) = some m): the harness uses proto.Unmarshal as the oracle for payloads",
